@@ -2,7 +2,7 @@
 Operational model of the trainer / monitor lifecycle (property C15), shaped like
 `inferno/learn/base.py` (CellTrainer), `inferno/observe/pooling.py` (Observable, MonitorPool),
 `inferno/observe/monitors.py` (Monitor.register from weak reference) and the hook mechanics of
-`inferno/core/infrastructure.py` (see `Model/Hooks.lean`), AFTER the repairs D15–D17.
+`inferno/core/infrastructure.py` (see `Model/Hooks.lean`), AFTER the repairs D15–D17 and D36.
 Core Lean only (no imports).
 
 Any number of layers with a fixed set of cells `topo : cell index ↦ (layer, connection, neuron)`
@@ -73,9 +73,9 @@ deriving DecidableEq, Repr
 structure State where
   topo          : List (Nat × Nat × Nat)
   layerTraining : Nat → Bool
-  /-- `false` = `Observable.add_monitor` as it stands (its "different layer / dead basis" test
-  `not (alive or id != id)` never skips anything); `true` = the test repaired (skip observables of
-  another layer) -/
+  /-- `true` = `Observable.add_monitor` after the repair D36 (the pool search skips observables
+  whose basis is dead or another layer); `false` = the old rule, whose test
+  `not (alive or id != id)` never skipped anything (kept for the negation witness) -/
   layerFilter   : Bool
   nextId        : Nat
   post          : List (Nat × Nat)
@@ -88,7 +88,7 @@ structure State where
 def noMonitor : Monitor := ⟨0, false, none, false, .cellmons 0, none, [], 0, 0, 0, 0⟩
 def noTrainer : Trainer := ⟨0, false, false, [], []⟩
 
-def init (topo : List (Nat × Nat × Nat)) (layerFilter : Bool := false) : State :=
+def init (topo : List (Nat × Nat × Nat)) (layerFilter : Bool := true) : State :=
   ⟨topo, fun _ => true, layerFilter, 0, [], [], fun _ => noMonitor, 0, fun _ => noTrainer, 0⟩
 
 /-- the layer that owns cell `cell` -/
@@ -198,8 +198,8 @@ def groupsErase (gs : List (Nat × List (Nat × Nat))) (n mname : Nat) : List (N
 /-- the alias search of `Observable.add_monitor` over `MonitorPool.pool`: observables in
 `observed_` order that have a group; the named monitor must carry equal `_tags`
 (`tags` and the realigned attribute); the LAST match wins, the search stops at the cell itself.
-The "different layer / dead basis" test of the code is vacuous (`layerFilter = false`); repaired
-(`layerFilter = true`) it skips observables owned by another layer. -/
+Observables owned by another layer are skipped (`layerFilter = true`, the repair D36; the old test
+was vacuous: `layerFilter = false`). -/
 def findAlias (s : State) (T : Trainer) (cell mname : Nat) (tags : Nat) (path : Path) : Option Nat :=
   let rec go (obs : List (Nat × Nat)) (found : Option Nat) : Option Nat :=
     match obs with
